@@ -135,6 +135,11 @@ class SymEnv:
     def abs(self, x):
         return abs(x)
 
+    def inv(self, A):
+        """matrix inverse: the same uninterpreted function the implementation's np.linalg.inv is mapped to"""
+        from .npx import inv_sym
+        return inv_sym(np.asarray(A, dtype=object))
+
     def max(self, vals):
         return core.smax(vals)
 
@@ -286,6 +291,9 @@ class ConcEnv:
 
     def abs(self, x):
         return abs(x)
+
+    def inv(self, A):
+        return np.linalg.inv(np.asarray(A, dtype=float))
 
     def max(self, vals):
         return max(vals)
